@@ -51,7 +51,7 @@ def transitions(trace):
 
 
 def describe_run(res):
-    d = {'args': res.args, 'env': res.env, 'mode': res.mode, 'pty_size': list(res.pty_size),
+    d = {'args': res.args, 'env': res.env, 'parent_argv': getattr(res, 'parent_argv', None), 'mode': res.mode, 'pty_size': list(res.pty_size),
          'rc': res.rc, 'signal': res.signal, 'timed_out': res.timed_out,
          'stdin_b64': base64.b64encode(res.stdin or b'').decode('ascii') if len(res.stdin or b'') < 200000 else None,
          'stdin_len': len(res.stdin or b''),
